@@ -30,8 +30,10 @@ components" raised ValueError — the theorems `checkpoint_onefile_then_perproc_
   `combined_name_next_to_plain_name_misaligns`, `two_thorns_group_or_var_witness`,
   `second_thorn_appearing_later_raises`
 
-NOT covered: a general (all files, all components) read-back theorem for the multi-thorn branch beyond one
-component per file; `read_ET_variables` / `get_content` around it (see the defect candidates in the report).
+Continued in Props/C11e.lean: the old models are the specialisation of the literal one (transfer of the C11c
+theorems), the multi-thorn read-back over several files / iterations (`multi_thorn_table_exact`), D4 as a theorem
+(`multi_thorn_components_raise`), termination of the growing-list loop.
+NOT covered: `read_ET_variables` / `get_content` around it (see the defect candidates in the report).
 -/
 import AurelVerif.Lemmas.C11Names
 import AurelVerif.Lemmas.C11MultiThorn
